@@ -83,6 +83,10 @@ type Config struct {
 	BranchOnly []string
 	// BranchNoStart: with BranchOnly, do not branch on the first scheduling of a freshly spawned thread
 	BranchNoStart bool
+	// BranchStartOnly: with BranchOnly, branch only on the alternative that gives a freshly spawned thread its
+	// first step at the first scheduling point after its spawn (explores "the new goroutine runs before its
+	// parent continues", and nothing else)
+	BranchStartOnly bool
 	// BranchAfterMark: no branching before the body calls Mark() (the set-up part runs under the default schedule only)
 	BranchAfterMark bool
 	// DelayBounding: every departure from the deterministic default scheduler (not only preemptions, also picking
@@ -131,6 +135,7 @@ type Thread struct {
 	vc      vclock
 	waiters []*waiter
 	h       uint64 // hash of this thread's causal history
+	offered bool   // BranchStartOnly: this fresh thread was already offered as an alternative once
 }
 
 type Sched struct {
@@ -433,10 +438,23 @@ func (s *Sched) loop() {
 					if s.cfg.BranchNoStart && a.t != nil && a.t.op != nil && a.t.op.kind == opStart {
 						continue
 					}
+					if s.cfg.BranchStartOnly {
+						// only at the first point after its spawn
+						if !(a.t != nil && a.t.op != nil && a.t.op.kind == opStart) || a.t.offered {
+							continue
+						}
+					}
 					for _, sub := range s.cfg.BranchOnly {
 						if strings.Contains(nm, sub) {
 							p.Focus[i] = true
 						}
+					}
+				}
+			}
+			if s.cfg.BranchStartOnly {
+				for _, a := range alts {
+					if a.t != nil && a.t.op != nil && a.t.op.kind == opStart {
+						a.t.offered = true
 					}
 				}
 			}
